@@ -20,7 +20,7 @@ from __future__ import annotations
 
 import ast
 import re
-from typing import Any, Dict, List, Optional, Set, Tuple
+from typing import Any, Dict, List, Optional, Sequence, Set, Tuple
 
 from engine.fold import EnumMember, Folder
 from engine.kvtext import conversion_of, emits_in, flatten as kv_flatten
@@ -131,6 +131,8 @@ def run(ctx: Any, prog: Program) -> None:
     ctx.rule('C11.L10', 'static-prop flags: every flag bit the reader takes from the file is stored there by the writer, per StaticPropVersion', floor=12)
     ctx.rule('C11.L11', 'de-duplicated string pools are searched for the terminated string and extended by exactly the searched bytes', floor=2)
     ctx.rule('C11.L12', 'a writer that may append to the very list it is writing (find_or_insert on its own view) iterates the live list, so appended elements are written too', floor=1)
+    ctx.rule('C11.L14', 'a writer skips a record only when every field that record would carry is at its default', floor=1)
+    ctx.rule('C11.L15', 'auxiliary lumps rebuilt by a writer are stored under the same version conditions the reader applies when it reads them', floor=10)
     ctx.rule('C11.L13', 'find_or_extend reports an existing run only when the whole sublist lies inside the list', floor=1)
     ctx.rule('C11.L4', 'static props: identical slot sequence for every StaticPropVersion, record size equals the declared size', floor=20)
     ctx.rule('C11.L5', 'isinstance chains test subclasses before their base classes', floor=1)
@@ -302,6 +304,90 @@ def run(ctx: Any, prog: Program) -> None:
     rt_ = ms['_lmp_read_textures']
     ok = any(isinstance(c, ast.Call) and isinstance(c.func, ast.Attribute) and c.func.attr == 'index' and c.args and isinstance(c.args[0], ast.Constant) and c.args[0].value == b'\0' for c in walk_no_nested(rt_))
     ctx.shape('C11.L11', ok, bsp, rt_, 'the texture name reader cuts each name at the NUL terminator', func='BSP._lmp_read_textures', text='reader cuts at terminator')
+    # ---- L14: skipped records -----------------------------------------------------------------------------------------
+    # `continue` in a record loop of a writer: the reader rebuilds the skipped element from defaults, so the path condition of the skip
+    # must mention every attribute of the element that the rest of the iteration would have written (directly or through a local).
+    n_skip = 0
+    for qn, fn in ms.items():
+        if not qn.startswith('_lmp_write_'):
+            continue
+        for lp in [l for l in walk_no_nested(fn) if isinstance(l, ast.For)]:
+            elems = {e.id for e in ast.walk(lp.target) if isinstance(e, ast.Name)}
+            for cont in [c for c in ast.walk(lp) if isinstance(c, ast.Continue)]:
+                # innermost loop of the continue must be lp
+                anc = bsp.parents.get(cont)
+                inner_loop = None
+                path_tests: List[ast.AST] = []
+                child: ast.AST = cont
+                top_stmt: Optional[ast.AST] = None
+                while anc is not None and anc is not fn:
+                    if isinstance(anc, (ast.For, ast.While)) and inner_loop is None:
+                        inner_loop = anc
+                        top_stmt = child
+                    if isinstance(anc, ast.If) and inner_loop is None:
+                        path_tests.append(anc.test)
+                    child, anc = anc, bsp.parents.get(anc)
+                if inner_loop is not lp or top_stmt is None:
+                    continue
+                n_skip += 1
+                idx = lp.body.index(top_stmt) if top_stmt in lp.body else None
+                if idx is None:
+                    ctx.shape('C11.L14', False, bsp, cont, 'position of the skip inside the record loop not recognised', func=f'BSP.{qn}', text=f'{qn}: record skip')
+                    continue
+                def elem_attrs(nodes: Sequence[ast.AST]) -> Set[str]:
+                    return {a.attr for nd in nodes for a in ast.walk(nd) if isinstance(a, ast.Attribute) and isinstance(a.value, ast.Name) and a.value.id in elems}
+                # locals defined from element attributes before / in the skipping statement
+                local_src: Dict[str, Set[str]] = {}
+                for st in lp.body[:idx + 1]:
+                    for a in ast.walk(st):
+                        if isinstance(a, ast.Assign) and isinstance(a.targets[0], ast.Name):
+                            local_src.setdefault(a.targets[0].id, set()).update(elem_attrs([a.value]))
+                after = lp.body[idx + 1:]
+                carried = elem_attrs(after)
+                for nd in after:
+                    for x in ast.walk(nd):
+                        if isinstance(x, ast.Name) and x.id in local_src:
+                            carried |= local_src[x.id]
+                tested = elem_attrs(path_tests)
+                missing = sorted(carried - tested)
+                ctx.check('C11.L14', not missing, bsp, cont, f'BSP.{qn} skips the rest of the record when `{" and ".join(ast.unparse(t)[:40] for t in reversed(path_tests))}`, but the skipped part also writes '
+                          f'{missing}: an element whose {(missing or ["?"])[0]} is set loses it (the reader rebuilds skipped records from defaults)', func=f'BSP.{qn}', text=f'{qn}: record skip covers every carried field')
+    if n_skip < 1:
+        raise AnalysisError('L14: no record-skipping `continue` found in the lump writers (one confirmed by hand: _lmp_write_bmodels)')
+    # ---- L15: auxiliary lumps -----------------------------------------------------------------------------------------------
+    n_aux = 0
+    for qn, fn in ms.items():
+        if not qn.startswith('_lmp_write_'):
+            continue
+        for st in ast.walk(fn):
+            if not (isinstance(st, ast.Assign) and isinstance(st.targets[0], ast.Attribute) and st.targets[0].attr == 'data' and isinstance(st.targets[0].value, ast.Subscript)
+                    and dotted(st.targets[0].value.value) == 'self.lumps'):
+                continue
+            lump = ast.unparse(st.targets[0].value.slice)
+            n_aux += 1
+            conds = []
+            anc = bsp.parents.get(st)
+            while anc is not None and anc is not fn:
+                if isinstance(anc, ast.If) and re.search(r'\bversion\b|VERSIONS|game_ver|is_vitamin', ast.unparse(anc.test)):
+                    conds.append(anc.test)
+                anc = bsp.parents.get(anc)
+            if not conds:
+                ctx.check('C11.L15', True, bsp, st, 'stored whatever the map version', func=f'BSP.{qn}', text=f'{qn}: {lump} stored')
+                continue
+            rd = ms.get(qn.replace('_lmp_write_', '_lmp_read_'))
+            mirrored = False
+            if rd is not None:
+                for acc in ast.walk(rd):
+                    if isinstance(acc, ast.Subscript) and dotted(acc.value) == 'self.lumps' and ast.unparse(acc.slice) == lump:
+                        a2 = bsp.parents.get(acc)
+                        while a2 is not None and a2 is not rd:
+                            if isinstance(a2, ast.If) and any(ast.unparse(a2.test) == ast.unparse(c) for c in conds):
+                                mirrored = True
+                            a2 = bsp.parents.get(a2)
+            ctx.check('C11.L15', mirrored, bsp, st, f'BSP.{qn} stores the rebuilt {lump} lump only when `{ast.unparse(conds[0])[:60]}`, but the reader takes its values from that lump for every version: '
+                      'for other versions the values the view holds are silently replaced by the stale or empty lump', func=f'BSP.{qn}', text=f'{qn}: {lump} stored')
+    if n_aux < 10:
+        raise AnalysisError(f'L15: only {n_aux} auxiliary lump stores found in the writers')
     # ---- L13 -------------------------------------------------------------------------------------------------
     bf = prog.module('binformat')
     foe = bf.func('find_or_extend')
@@ -410,6 +496,8 @@ def run(ctx: Any, prog: Program) -> None:
 
 
 MUTANTS = [
+    {'id': 'bmodel_phys_skipped_without_solids', 'file': 'bsp.py', 'find': "            if model.phys_keyvalues is not None:\n                kvs = model.phys_keyvalues.serialise().encode('ascii') + b'\\x00'\n            else:\n                kvs = b'\\x00'\n                if not model._phys_solids:\n                    continue  # No physics info.", 'replace': "            if not model._phys_solids:\n                continue\n            if model.phys_keyvalues is not None:\n                kvs = model.phys_keyvalues.serialise().encode('ascii') + b'\\x00'\n            else:\n                kvs = b'\\x00'", 'expect': 'C11.L14'},
+    {'id': 'overlay_levels_only_for_l4d2', 'file': 'bsp.py', 'find': "        self.lumps[BSP_LUMPS.OVERLAY_SYSTEM_LEVELS].data = levels_buf.getvalue()", 'replace': "        if self.version >= VERSIONS.L4D2:\n            self.lumps[BSP_LUMPS.OVERLAY_SYSTEM_LEVELS].data = levels_buf.getvalue()", 'expect': 'C11.L15'},
     {'id': 'find_or_extend_tail_prefix', 'file': 'binformat.py', 'find': "                if i + len(items) <= len(item_list) and all(", 'replace': "                if all(", 'expect': 'C11.L13'},
     {'id': 'nodes_snapshot_loop', 'file': 'bsp.py', 'find': "        for node in nodes:\n", 'replace': "        for node in list(nodes):\n", 'expect': 'C11.L12'},
     {'id': 'rle_decode_bounded_search', 'file': 'bsp.py', 'find': "            zero_ind = data.index(0x00, pos)\n        except ValueError:\n            # No more zeros.\n            result += view[pos:]", 'replace': "            zero_ind = data.index(0x00, pos, start + ret_bytes)\n        except ValueError:\n            # No more zeros.\n            result += view[pos:]", 'expect': 'C11.L7'},
